@@ -37,6 +37,18 @@ CHECKS = {
     'C10': dict(engine='E1-kani', technique='bounded model checking (Kani/CBMC, CaDiCaL) of every generated Into<T>::into against a per-target oracle',
                 text='For every requested target, variant and value CBMC decides that into() returns the designated field (marker, sole field or unique same-typed field) passed through its per-target method, unchanged, or through Into.',
                 ref='DESIGN.md §4 C10'),
+    'C14': dict(engine='E1-kani', technique='bounded model checking (Kani/CBMC, CaDiCaL): every spelling of a request discharged against the same config-derived oracle',
+                text='For requests from the C02/C03/C05/C06/C07/C08/C10 grammars with attributes at type, variant and field level, every documented spelling (each single alternative of each spelling group, one list vs several attributes in every rotation, random mixes) is decided equal to the same oracle for all values, hence all spellings are behaviourally equivalent. Token-for-token equality is not claimed.',
+                ref='DESIGN.md §4 C14',
+                note=E1_NOTE + ' Behavioural equivalence only: two spellings that behave identically but emit different tokens are not distinguished. bound(...) spellings are not covered here.'),
+    'C15': dict(engine='E1-kani', technique='bounded model checking (Kani/CBMC, CaDiCaL): trait t against its own oracle in the presence of bystander traits with conflicting attributes',
+                text='For each trait t (templates of C02..C10) and bystander sets S covering every other trait, with conflicting attributes on the same fields, in one list or separate attributes and before or after t, CBMC decides that t still equals the oracle computed from t\'s attributes alone for all values.',
+                ref='DESIGN.md §4 C15',
+                note=E1_NOTE + ' Behavioural independence only (token-level "unchanged" is not claimed); |S| <= 4 in quick.'),
+    'C19': dict(engine='E1-kani', technique='bounded model checking (Kani/CBMC, CaDiCaL) of the C02..C10 harnesses re-instantiated in hostile naming contexts',
+                text='User identifiers harvested on each run from the quote!/format_ident! templates of /repo/src are used as field, variant and parameter names, and the derive site is placed in a module shadowing Option/Some/None/Result/Ok/Err/Ordering/Clone/Default/Debug/core/std/...; CBMC decides behaviour still equals the oracle for all values in each context. A context that does not compile is surfaced as a compiler verdict (not a solver obligation).',
+                ref='DESIGN.md §4 C19',
+                note=E1_NOTE + ' Compile verdicts of hostile contexts are rustc\'s; #![no_std] at crate level is not exercised (only the `std` module name is shadowed). One open known finding (type parameter named like the generated hasher generic).'),
     'C20': dict(engine='E1-kani', technique='bounded model checking (Kani/CBMC, CaDiCaL) of the generated union eq/hash/clone/default/fmt over arbitrary bytes',
                 text='For every union layout in the grammar (sizes 1..8, alignments 1..8, with and without padding, one generic) CBMC decides for every byte pattern that == is equality of the size_of::<Self>() bytes, hash feeds exactly those bytes as one slice, clone is a bitwise copy, default initialises the designated field from its own source; Debug equals debug_tuple(name).field(&bytes) / Debug::fmt(bytes) on fixed byte patterns in both modes and on arbitrary bytes for size 1.',
                 ref='DESIGN.md §4 C20',
@@ -49,7 +61,7 @@ NOT_APPLICABLE = {
     'C16': "the only varying input is std's per-process RandomState seed inside HashMap iteration; it cannot be made symbolic without executing the macro symbolically, which is unavailable here",
 }
 
-PENDING = {k: 'check not built yet at this commit (planned, see DESIGN.md §0); not claimed until it is' for k in ['C11','C12','C14','C15','C17','C18','C19']}
+PENDING = {k: 'check not built yet at this commit (planned, see DESIGN.md §0); not claimed until it is' for k in ['C11','C12','C17','C18']}
 
 
 def build():
